@@ -118,6 +118,39 @@ func c11extAs(R string) RuleFunc {
 				return false
 			case *ssa.FieldAddr:
 				return fresh(x.X, depth+1)
+			case *ssa.Parameter:
+				// handed in by the callers: fresh when every caller in the module hands in a fresh one
+				// (a helper that writes into the buffer its caller created)
+				f := x.Parent()
+				if f == nil || depth > 4 {
+					return false
+				}
+				idx := -1
+				for i, p := range f.Params {
+					if p == x {
+						idx = i
+					}
+				}
+				if idx < 0 {
+					return false
+				}
+				edges := c.P.CallersOf(f)
+				if len(edges) == 0 {
+					return false
+				}
+				for _, e := range edges {
+					if e.Site == nil {
+						return false
+					}
+					args := e.Site.Common().Args
+					if e.Site.Common().IsInvoke() || idx >= len(args) {
+						return false
+					}
+					if !fresh(args[idx], depth+2) {
+						return false
+					}
+				}
+				return true
 			}
 			return false
 		}
